@@ -283,6 +283,47 @@ pub fn run(ctx: &Ctx) {
             }
         }
     }
+    // (2b) v1 sealed keys built by the specification whose RSA ciphertext has a leading zero byte (1 in 256):
+    //      every conforming k1.seal blob must unseal to the same key
+    {
+        let b1 = bs.iter().find(|b| b.name == "v1").unwrap();
+        let keys = keys_for(b1, &mut g);
+        if let Some((sk, pk, _)) = keys.recipients.first() {
+            let mut found = 0;
+            let tries = if ctx.thorough() { 4000 } else { 1200 };
+            for _ in 0..tries {
+                let mut r = g.bytes(512);
+                r[0] = (r[0] & 0x7f) | 0x40;
+                let c = crate::prims::oracle(&mut m.srv.cache, "rsa_enc", &[pk.clone(), r.clone()]);
+                let lead0 = c.first().map(|c| c.len() < 512).unwrap_or(false);
+                if !lead0 && rep.distinct.contains("v1|seal|spec-blob|lead0=false") {
+                    continue;
+                }
+                let pdk = g.bytes(32);
+                rep.evaluations += 1;
+                rep.model_evaluations += 1;
+                let spec = opt_bytes(&m.eval(&sexp::op("spec_seal", vec![sexp::s("v1"), sexp::x(pk), sexp::x(&pdk), sexp::x(&r)])));
+                let spec = match spec { Some(s) => s, None => continue };
+                let text = format!("k1.seal.{}", lab::b64(&spec));
+                match (b1.pke_unseal)(sk, &text) {
+                    Ok(k2) if k2 == pdk => rep.nontrivial(format!("v1|seal|spec-blob|lead0={lead0}")),
+                    other => rep.violation("c07.v1.seal.rejects-spec-blob", format!("v1 unseals a specification-conforming k1.seal blob (RSA ciphertext leading zero byte: {lead0}) to {:?} instead of the key", other.map(|x| x.len())), json!({"backend": "v1", "op": "seal", "text": text, "sk": hex::encode(sk), "key": hex::encode(&pdk)})),
+                }
+                if lead0 {
+                    found += 1;
+                    if found >= 3 {
+                        break;
+                    }
+                } else {
+                    found = found.max(0);
+                    if found == 0 {
+                        found = 0;
+                    }
+                }
+            }
+            rep.count_n("v1.seal.spec-blobs-with-leading-zero-c", found as u64);
+        }
+    }
     // (5) Argon2 parallelism 2: defined by the specification; paseto-v4 accepts it, libsodium supports one lane only
     {
         let b4 = bs.iter().find(|b| b.name == "v4").unwrap();
